@@ -470,8 +470,27 @@ fn run_shape(tpls: &[TplS], orders: &[Vec<usize>]) -> Outcome {
 
 // ---------------------------------------------------------------- workers
 
-fn child_exhaustive(quick: bool, seed: u64, k: u64, stride: u64) {
+fn start_watchdog(progress: std::sync::Arc<std::sync::atomic::AtomicU64>, secs: u64) {
+    std::thread::spawn(move || {
+        let t0 = Instant::now();
+        loop {
+            std::thread::sleep(Duration::from_millis(200));
+            let last = progress.load(std::sync::atomic::Ordering::Relaxed);
+            if t0.elapsed().as_millis() as u64 > last + secs * 1000 {
+                std::process::exit(3);
+            }
+        }
+    });
+}
+
+/// worker: the shapes `k, k + stride, …` of every part whose global index is greater than `after`
+/// (a worker restarted after a culprit skips what was done); everything that touches the engine
+/// happens in workers
+fn child_exhaustive(quick: bool, seed: u64, k: u64, stride: u64, after: i64) {
     let p = plan(quick);
+    let progress = std::sync::Arc::new(std::sync::atomic::AtomicU64::new(0));
+    start_watchdog(progress.clone(), 30);
+    let t_start = Instant::now();
     let stdout = std::io::stdout();
     let mut w = std::io::BufWriter::new(stdout.lock());
     let mut base = 0u64;
@@ -488,6 +507,11 @@ fn child_exhaustive(quick: bool, seed: u64, k: u64, stride: u64) {
             } else {
                 (0..4).map(|j| all_orders[(mix(seed, idx, j) % all_orders.len() as u64) as usize].clone()).collect()
             };
+            if ((base + idx) as i64) <= after {
+                idx += stride;
+                continue;
+            }
+            progress.store(t_start.elapsed().as_millis() as u64, std::sync::atomic::Ordering::Relaxed);
             writeln!(w, "at {}", base + idx).unwrap();
             w.flush().unwrap();
             let o = run_shape(&tpls, &orders);
@@ -551,6 +575,35 @@ fn run_child(args: &[String], timeout: Duration) -> (String, String) {
         }
     };
     (status, reader.join().unwrap_or_default())
+}
+
+/// worker: `run_shape` on the chain of a JSON file; prints `{"imp", "failure"}`
+fn child_shape(path: &str) {
+    let c: Case = serde_json::from_str(&std::fs::read_to_string(path).expect("case file")).expect("case json");
+    let progress = std::sync::Arc::new(std::sync::atomic::AtomicU64::new(0));
+    start_watchdog(progress, 30);
+    let orders: Vec<Vec<usize>> = perms(c.tpls.len()).into_iter().take(6).collect();
+    let o = run_shape(&c.tpls, &orders);
+    println!("{}", serde_json::json!({"imp": o.imp, "failure": o.failure}));
+}
+
+/// `run_shape` in a worker process (the parent never calls the engine): (registration answer,
+/// failed oracle); when the engine aborts or hangs the answer is `died <status>`
+fn safe_shape(tpls: &[TplS]) -> (String, Option<String>) {
+    let dir = std::env::temp_dir().join(format!("c04-{}", std::process::id()));
+    let _ = std::fs::create_dir_all(&dir);
+    let path = dir.join(format!("shape-{:?}.json", std::thread::current().id()).replace(['(', ')'], ""));
+    std::fs::write(&path, serde_json::to_string(&Case { tpls: tpls.to_vec(), order: (0..tpls.len()).collect() }).unwrap()).unwrap();
+    let (status, out) = run_child(&["--child".into(), "shape".into(), path.to_string_lossy().to_string()], Duration::from_secs(90));
+    let _ = std::fs::remove_file(&path);
+    let _ = std::fs::remove_dir(&dir);
+    if status == "exit0" {
+        if let Ok(j) = serde_json::from_str::<serde_json::Value>(out.trim()) {
+            return (j["imp"].as_str().unwrap_or("").to_string(), j["failure"].as_str().map(|s| s.to_string()));
+        }
+    }
+    let st = if status.contains("exit status: 3") { "timeout (no answer within 30 s)".to_string() } else { status };
+    (format!("died {st}"), Some(format!("the engine did not return while this chain was registered / rendered (worker {st})")))
 }
 
 // ---------------------------------------------------------------- shrinking
@@ -625,7 +678,9 @@ fn main() {
     let args: Vec<String> = std::env::args().collect();
     if let Some(i) = args.iter().position(|a| a == "--child") {
         if args[i + 1] == "exh" {
-            child_exhaustive(args[i + 2] == "quick", args[i + 3].parse().unwrap(), args[i + 4].parse().unwrap(), args[i + 5].parse().unwrap());
+            child_exhaustive(args[i + 2] == "quick", args[i + 3].parse().unwrap(), args[i + 4].parse().unwrap(), args[i + 5].parse().unwrap(), args.get(i + 6).and_then(|a| a.parse().ok()).unwrap_or(-1));
+        } else if args[i + 1] == "shape" {
+            child_shape(&args[i + 2]);
         }
         return;
     }
@@ -637,6 +692,12 @@ fn main() {
         let c: Case = serde_json::from_value(j["case"].clone()).expect("case");
         for t in &c.tpls {
             println!("template {:?}: {}", t.name, t.source());
+        }
+        let (pimp, pfail) = safe_shape(&c.tpls);
+        if pimp.starts_with("died") {
+            println!("implementation (in a worker process): {pimp}\ndirect oracles: {pfail:?}");
+            println!("model (fin): {:?}", driver::run_batch(&exe, &[format!("fin 0 1 {}", set_wire(&[], &c.tpls))]));
+            return;
         }
         let orders = perms(c.tpls.len());
         let o = run_shape(&c.tpls, &orders[..orders.len().min(6)]);
@@ -662,14 +723,29 @@ fn main() {
     let total: u64 = p.parts.iter().map(|&(l, n, s)| part_cases(l, n, s)).sum();
 
     let t0 = Instant::now();
+    // every worker is restarted after a culprit (a shape on which it died or hung)
     let worker_out: Vec<(String, String)> = std::thread::scope(|s| {
         let hs: Vec<_> = (0..threads)
             .map(|k| {
-                let a: Vec<String> = vec!["--child".into(), "exh".into(), if quick { "quick".into() } else { "thorough".into() }, env.seed.to_string(), k.to_string(), threads.to_string()];
-                s.spawn(move || run_child(&a, Duration::from_secs(if quick { 300 } else { 6000 })))
+                let seed = env.seed;
+                s.spawn(move || {
+                    let mut outs: Vec<(String, String)> = Vec::new();
+                    let mut after: i64 = -1;
+                    for _ in 0..6 {
+                        let a: Vec<String> = vec!["--child".into(), "exh".into(), if quick { "quick".into() } else { "thorough".into() }, seed.to_string(), k.to_string(), threads.to_string(), after.to_string()];
+                        let (status, text) = run_child(&a, Duration::from_secs(if quick { 300 } else { 6000 }));
+                        let culprit = if status == "exit0" { None } else { text.lines().rev().find_map(|l| l.strip_prefix("at ").and_then(|x| x.parse::<i64>().ok())) };
+                        outs.push((status, text));
+                        match culprit {
+                            Some(c) => after = c,
+                            None => break,
+                        }
+                    }
+                    outs
+                })
             })
             .collect();
-        hs.into_iter().map(|h| h.join().unwrap()).collect()
+        hs.into_iter().flat_map(|h| h.join().unwrap()).collect()
     });
     report.notes.push(format!("{total} shapes (parts: (chain length, block names, 0 = exhaustive | sample size) {:?}) in {:.1} s", p.parts, t0.elapsed().as_secs_f64()));
 
@@ -713,10 +789,17 @@ fn main() {
                 Some(idx) => {
                     let tpls = locate(quick, idx, env.seed);
                     report.oracle_failures += 1;
+                    report.count("worker-death");
+                    let st = if status.contains("exit status: 3") { "timeout (no answer within 30 s)".to_string() } else { status.clone() };
+                    let small = if report.violations.len() < 2 && safe_shape(&tpls).0.starts_with("died") {
+                        shrink(tpls.clone(), &|t: &[TplS]| safe_shape(t).0.starts_with("died"))
+                    } else {
+                        tpls.clone()
+                    };
                     report.violation(
                         "property",
-                        format!("worker {status} while registering / rendering shape #{idx}"),
-                        replay_json(&tpls, "", serde_json::json!({"worker": status})),
+                        format!("registering and rendering this chain must end in text or an error: the engine did not return (worker {st}) on shape #{idx}"),
+                        replay_json(&small, &format!("died {st}"), serde_json::json!({"worker": st})),
                     );
                 }
                 None => report.violation("model-mismatch", format!("worker ended abnormally ({status}) without naming a shape"), serde_json::json!({"stage": "worker", "status": status})),
@@ -816,10 +899,9 @@ fn main() {
     }
     report.oracle_failures += fails.len() as u64;
     for &i in fails.iter().take(4) {
-        let orders = |n: usize| perms(n).into_iter().take(6).collect::<Vec<_>>();
-        let small = shrink(shapes[i].clone(), &|t: &[TplS]| run_shape(t, &orders(t.len())).failure.is_some());
-        let o = run_shape(&small, &orders(small.len()));
-        report.violation("property", o.failure.clone().unwrap_or_else(|| rows[i].failure.clone()), replay_json(&small, &o.imp, serde_json::json!({"original_failure": rows[i].failure})));
+        let small = shrink(shapes[i].clone(), &|t: &[TplS]| safe_shape(t).1.is_some());
+        let (imp, failure) = safe_shape(&small);
+        report.violation("property", failure.unwrap_or_else(|| rows[i].failure.clone()), replay_json(&small, &imp, serde_json::json!({"original_failure": rows[i].failure})));
     }
     if fails.is_empty() && !model.is_empty() {
         for &(i, stage) in mismatches.iter().take(4) {
@@ -837,10 +919,10 @@ fn main() {
             }
             let op = if stage.ends_with("spec") { "spec".to_string() } else { format!("fin {} {}", i % 3, (i / 3) % 3) };
             let small = shrink(shapes[i].clone(), &|t: &[TplS]| {
-                let (imp, _) = register(t, &(0..t.len()).collect::<Vec<_>>());
+                let (imp, _) = safe_shape(t);
                 driver::run_batch(&exe, &[format!("{op} {}", set_wire(&[], t))]).map(|m| m[0] != imp).unwrap_or(false)
             });
-            let (imp, _) = register(&small, &(0..small.len()).collect::<Vec<_>>());
+            let (imp, _) = safe_shape(&small);
             let m = driver::run_batch(&exe, &[format!("{op} {}", set_wire(&[], &small))]).map(|m| m[0].clone()).unwrap_or_default();
             report.violation("model-mismatch", format!("model ({op}) `{m}` vs implementation `{imp}`"), replay_json(&small, &imp, serde_json::json!({"stage": stage, "model": m})));
         }
